@@ -224,7 +224,7 @@ func buildCases(rng *rand.Rand, quick bool) []*caseSpec {
 		}
 	}
 	if quick {
-		pairs = sample(rng, pairs, 3000)
+		pairs = sample(rng, pairs, 2000)
 	}
 	for _, p := range pairs {
 		add(p)
@@ -238,7 +238,7 @@ func buildCases(rng *rand.Rand, quick bool) []*caseSpec {
 		}
 	}
 	var c3 []*caseSpec
-	nC3 := 1500
+	nC3 := 1000
 	if !quick {
 		nC3 = 40000
 	}
@@ -266,7 +266,7 @@ func buildCases(rng *rand.Rand, quick bool) []*caseSpec {
 		}
 	}
 	if quick {
-		e3 = sample(rng, e3, 1000)
+		e3 = sample(rng, e3, 600)
 	}
 	for _, p := range e3 {
 		add(p)
@@ -285,7 +285,7 @@ func buildCases(rng *rand.Rand, quick bool) []*caseSpec {
 
 	// D: random histories: 2-6 files of assorted sizes, 2-6 runs with 0-2 faults each,
 	// random events between runs, paging (agent batch size) and hub reconcile cap varied.
-	nD := 2400
+	nD := 1600
 	if !quick {
 		nD = 60000
 	}
